@@ -30,88 +30,97 @@ use pdf::primitive::{Dictionary, Primitive};
 use serde_json::json;
 use std::collections::HashMap;
 
-/// equal, or equal up to the order in which a `HashMap` prints its entries (same multiset of characters)
-fn debug_same(a: &str, b: &str) -> bool {
-    if a == b {
-        return true;
+/// length of the `Indirect(RcRef { inner: PlainRef { id: N, gen: G }, data: ` prefix at the start of `s`, if N is an
+/// object the recording updater created
+fn created_prefix(s: &str) -> Option<usize> {
+    const HEAD: &str = "Indirect(RcRef { inner: PlainRef { id: ";
+    let after = s.strip_prefix(HEAD)?;
+    let digits: String = after.chars().take_while(|c| c.is_ascii_digit()).collect();
+    if digits.parse::<u64>().ok()? < CREATED_BASE {
+        return None;
     }
-    let (a, b) = (&normalise_created(a)[..], &normalise_created(b)[..]);
-    if a == b {
-        return true;
-    }
-    if a.len() != b.len() || !(a.contains('{') && a.contains(": ")) {
-        return false;
-    }
-    let mut x: Vec<u8> = a.bytes().collect();
-    let mut y: Vec<u8> = b.bytes().collect();
-    x.sort_unstable();
-    y.sort_unstable();
-    x == y
+    let tail = &after[digits.len()..];
+    let gen = tail.strip_prefix(", gen: ")?;
+    let gd: String = gen.chars().take_while(|c| c.is_ascii_digit()).collect();
+    let rest = gen[gd.len()..].strip_prefix(" }, data: ")?;
+    Some(s.len() - rest.len())
 }
 
-/// `Indirect(RcRef { inner: PlainRef { id: N, gen: G }, data: X })` with an object the recording updater created
-/// (N ≥ CREATED_BASE) reads like `Direct(X)`: an `indirect` field is moved into an object of its own by the writer
-fn normalise_created(s: &str) -> String {
-    const HEAD: &str = "Indirect(RcRef { inner: PlainRef { id: ";
-    let mut out = String::new();
-    let mut rest = s;
-    loop {
-        let Some(i) = rest.find(HEAD) else {
-            out.push_str(rest);
-            return out;
-        };
-        let after = &rest[i + HEAD.len()..];
-        let digits: String = after.chars().take_while(|c| c.is_ascii_digit()).collect();
-        let id: u64 = digits.parse().unwrap_or(0);
-        let tail = &after[digits.len()..];
-        let Some(j) = tail.find(" }, data: ") else {
-            out.push_str(rest);
-            return out;
-        };
-        if id < CREATED_BASE {
-            out.push_str(&rest[..i + HEAD.len()]);
-            rest = after;
+/// `a` and `b` are the same text except that where `a` says `Direct(X)`, `b` may say
+/// `Indirect(RcRef { inner: PlainRef { id: N, gen: G }, data: X })` with an object the writer created: an `indirect`
+/// field is moved into an object of its own. No parsing of `X` (the Debug text of a `PdfString` is ambiguous about
+/// backslashes): the two texts are walked in step.
+fn aligned(a: &str, b: &str) -> bool {
+    let (a, b) = (a.as_bytes(), b.as_bytes());
+    let (mut i, mut j, mut open) = (0usize, 0usize, 0usize);
+    while i < a.len() && j < b.len() {
+        if a[i] == b[j] {
+            i += 1;
+            j += 1;
             continue;
         }
-        let body = &tail[j + " }, data: ".len()..];
-        // the end of X: the ` }` that closes `RcRef {`, at nesting depth 0, outside string literals
-        let bytes = body.as_bytes();
-        let (mut depth, mut k, mut in_str) = (0i32, 0usize, false);
-        let mut end = None;
-        while k < bytes.len() {
-            let c = bytes[k];
-            if in_str {
-                if c == b'\\' {
-                    k += 1;
-                } else if c == b'"' {
-                    in_str = false;
-                }
-            } else {
-                match c {
-                    b'"' => in_str = true,
-                    b'{' | b'(' | b'[' => depth += 1,
-                    b'}' | b')' | b']' => {
-                        if depth == 0 {
-                            end = Some(k);
-                            break;
-                        }
-                        depth -= 1;
-                    }
-                    _ => {}
-                }
+        if a[i..].starts_with(b"Direct(") {
+            if let Some(n) = std::str::from_utf8(&b[j..]).ok().and_then(created_prefix) {
+                i += "Direct(".len();
+                j += n;
+                open += 1;
+                continue;
             }
-            k += 1;
         }
-        let Some(e) = end else {
-            out.push_str(rest);
-            return out;
-        };
-        // body[..e] is `X ` (a blank before the closing brace), body[e] = '}' of RcRef, then ')' of Indirect
-        out.push_str(&rest[..i]);
-        out.push_str("Direct(");
-        out.push_str(&normalise_created(body[..e].trim_end()));
-        rest = &body[e + 1..];
+        if open > 0 && a[i] == b')' && b[j..].starts_with(b" })") {
+            i += 1;
+            j += 3;
+            open -= 1;
+            continue;
+        }
+        return false;
     }
+    i == a.len() && j == b.len()
+}
+
+/// the characters of a Debug text, with every created-object wrapper reduced to `Direct(…)`
+fn canonical_chars(s: &str) -> Vec<u8> {
+    let mut out: Vec<u8> = vec![];
+    let mut rest = s;
+    let mut wrappers = 0usize;
+    while let Some(i) = rest.find("Indirect(RcRef { inner: PlainRef { id: ") {
+        out.extend_from_slice(rest[..i].as_bytes());
+        match created_prefix(&rest[i..]) {
+            Some(n) => {
+                out.extend_from_slice(b"Direct(");
+                wrappers += 1;
+                rest = &rest[i + n..];
+            }
+            None => {
+                out.extend_from_slice(b"I");
+                rest = &rest[i + 1..];
+            }
+        }
+    }
+    out.extend_from_slice(rest.as_bytes());
+    out.sort_unstable();
+    // each wrapper leaves its closing ` }` behind
+    for c in [b' ', b'}'] {
+        for _ in 0..wrappers {
+            if let Some(p) = out.iter().position(|x| *x == c) {
+                out.remove(p);
+            }
+        }
+    }
+    out
+}
+
+/// equal; or equal up to `Direct` / `Indirect(created object)`; or, for texts that print a map, the same multiset of
+/// characters (a `HashMap` prints its entries in an order that differs between two equal maps) — weaker than
+/// equality, never a false alarm
+fn debug_same(a: &str, b: &str) -> bool {
+    if a == b || aligned(a, b) || aligned(b, a) {
+        return true;
+    }
+    if !(a.contains('{') && a.contains(": ")) {
+        return false;
+    }
+    canonical_chars(a) == canonical_chars(b)
 }
 
 pub struct VsOutcome {
